@@ -115,25 +115,28 @@ def accum_flavour(db):
     fn = helper(db, 'accum_coeff')
     kinds = set()
     n = 0
-    for bi, t, blk in mir.iter_calls(fn):
-        path = mir.callee(t)[1] or ''
-        if '<impl u128>::' in path:
-            op = path.rsplit('::', 1)[1]
-            if op.startswith('wrapping_') and op[9:] in ('mul', 'add'):
-                kinds.add('wrapping')
-                n += 1
-            elif op.startswith('saturating_') and op[11:] in ('mul', 'add'):
-                kinds.add('saturating')
-                n += 1
-            else:
-                kinds.add('other:' + op)
-    # plain operators on u128 in the body would be another way to accumulate: not covered
-    for blk in fn['blocks']:
-        for s_ in blk.get('stmts', []):
-            js = str(s_)
-            if "'binop'" in js and ('Mul' in js or 'Add' in js) and 'u128' in js:
-                kinds.add('other:operator')
-    if len(kinds) == 1 and n >= 4:
+    # the body and its closures (a local `shift_add` closure is still the scanner's own accumulation)
+    bodies = [fn] + [g for g in db.fns.values() if g['id'].startswith(fn['id'] + '::{closure#')]
+    for f_ in bodies:
+        for bi, t, blk in mir.iter_calls(f_):
+            path = mir.callee(t)[1] or ''
+            if '<impl u128>::' in path:
+                op = path.rsplit('::', 1)[1]
+                if op in ('wrapping_mul', 'wrapping_add'):
+                    kinds.add('wrapping')
+                    n += 1
+                elif op in ('saturating_mul', 'saturating_add'):
+                    kinds.add('saturating')
+                    n += 1
+                elif op.endswith('_mul') or op.endswith('_add'):
+                    kinds.add('other:' + op)
+        # plain operators on u128 in the body would be another way to accumulate: not covered
+        for blk in f_['blocks']:
+            for s_ in blk.get('stmts', []):
+                js = str(s_)
+                if "'binop'" in js and ('Mul' in js or 'Add' in js) and 'u128' in js:
+                    kinds.add('other:operator')
+    if len(kinds) == 1 and n >= 2:
         return kinds.pop()
     return None
 
